@@ -66,7 +66,7 @@ def cmd_confirm(prop, m):
     try:
         demo_cmd = meta["agent_report"]["demo_cmd"]
         # one shared target dir for all confirmations (removed by the caller at the end)
-        demo_cmd_env = f"CARGO_TARGET_DIR=/tmp/confirm-target {demo_cmd}"
+        demo_cmd_env = f"CARGO_TARGET_DIR={os.environ.get('CONFIRM_TARGET', '/tmp/confirm-target')} {demo_cmd}"
         subprocess.run(["git", "apply", os.path.join(d(prop, m), "demo.diff")], cwd=wt, check=True)
         rc0, out0, t0 = sh(demo_cmd_env, wt, 1800)
         subprocess.run(["git", "apply", os.path.join(d(prop, m), "patch.diff")], cwd=wt, check=True)
